@@ -12,7 +12,7 @@ def run(ctx):
         "of __setstate__ in the same order, with the cache reset; == and hash read only those fields (CMP tables); (SH4) "
         "for each cache entry the parsing constructor pre-fills, the lazy definition of that accessor is evaluated at the "
         "constructor's exit with the slots bound to what was stored, and must give the same term or an overlapping shape "
-        "over {None, empty, non-empty} x {None, 0, non-zero}. (SH4-BRACKET) every raw_host entry written outside the lazy filler - in the parser, a classmethod constructor or a modifier - is not the bracketed form the host encoder returns for IPv6 literals. (SH5) the authority helpers tell port 0 from an absent port. Not decided: value equality beyond that abstraction.")
+        "over {None, empty, non-empty} x {None, 0, non-zero}. (SH4-BRACKET) every raw_host entry written outside the lazy filler - in the parser, a classmethod constructor or a modifier - is not the bracketed form the host encoder returns for IPv6 literals. (PQ-TAINT) no function of _url stores a caller-supplied query object under '_parsed_query' without a serialiser (the query helpers, quoters, parse_qsl, str) in between. (SH5) the authority helpers tell port 0 from an absent port. Not decided: value equality beyond that abstraction.")
     fields = pk1(ctx)
     table = cmp_rules(ctx)
     ctx.rule("PK1")
@@ -23,6 +23,8 @@ def run(ctx):
                f"== reads {sorted(used - set(fields))}, which are not part of the pickled state", sample=str(sorted(used)))
     sh4(ctx, Shapes(ctx.model))
     from ..rules.pickle import sh4_bracket
+    from ..rules.pickle import pq_taint
+    pq_taint(ctx)       # a pre-filled '_parsed_query' is computed from text, never the caller's query object as supplied
     sh4_bracket(ctx)    # wherever raw_host is pre-filled (parser, build, a modifier) it is the bracket-free host the lazy splitter would give
     from ..rules import immut
     immut.im11(ctx)     # a copy / derived URL never inherits cache entries computed for another URL
